@@ -76,7 +76,10 @@ def prepare(cid, spec, op):
     if op["op"] not in ("rows", "noclose"):
         return None
     text = V.encode(spec, op["table"], broken_tail=op.get("fault", False))
-    return validio.Reader(cid, io.StringIO(text, newline=""), on_error=op["mode"], validate_until=op["limit"])
+    stream = io.StringIO(text, newline="")
+    reader = validio.Reader(cid, stream, on_error=op["mode"], validate_until=op["limit"])
+    reader._c08_stream = stream
+    return reader
 
 
 def do_op(cid, spec, op, pre=None):
@@ -114,6 +117,9 @@ def do_op(cid, spec, op, pre=None):
             gen.close()
         elif kind == "noclose":
             reader = pre if pre is not None else validio.Reader(cid, stream, on_error=op["mode"], validate_until=op["limit"])
+            if pre is None:
+                reader._c08_stream = stream
+            res["reader"] = reader
             outs = []
             try:
                 for r in reader.rows():
@@ -207,10 +213,20 @@ def coq_outcome(o):
 def make_case(inp):
     spec, history = inp["spec"], inp["history"]
     cid = V.build_cid(spec)
-    pres = [prepare(cid, spec, op) if inp.get("pre") else None for op in history]
-    outcomes = [do_op(cid, spec, op, pre) for op, pre in zip(history, pres)]
+    pres = [prepare(cid, spec, op) if inp.get("pre") and not op.get("same_reader") else None for op in history]
+    outcomes = []
+    last_reader = None
+    for op, pre in zip(history, pres):
+        if op.get("same_reader") and last_reader is not None:
+            # the Reader of the previous operation reads its data another time (rows() says it may): the stream is
+            # rewound, everything else is left as the previous pass left it
+            last_reader._c08_stream.seek(0)
+            pre = last_reader
+        oc = do_op(cid, spec, op, pre)
+        last_reader = oc.pop("reader", None)
+        outcomes.append(oc)
     coq = P(P(V.coq_cid(spec), L(history, lambda op: coq_op(spec, op))), L(outcomes, coq_outcome))
-    tags = ["len%d" % len(history)] + sorted({op["op"] for op in history}) + (["readers-preconstructed"] if inp.get("pre") else [])
+    tags = ["len%d" % len(history)] + sorted({op["op"] for op in history}) + (["readers-preconstructed"] if inp.get("pre") else []) + (["same-reader-again"] if any(op.get("same_reader") for op in history) else [])
     return {"coq": coq, "obs": outcomes, "nontrivial": len(history) >= 2, "tags": tags}
 
 
@@ -229,6 +245,7 @@ def direct_oracle(inp, obs):
     spec = inp["spec"]
     for i, (op, oc) in enumerate(zip(inp["history"], obs)):
         fresh = do_op(V.build_cid(spec), spec, op)
+        fresh.pop("reader", None)
         if plain(fresh) != plain(oc):
             return "operation %d (%s) after this history: %r; on a fresh CID: %r" % (i, op["op"], plain(oc), plain(fresh))
     return None
@@ -246,6 +263,14 @@ def gen_inputs(tier, rnd):
             for second in LIMITED:
                 yield {"spec": spec, "history": [first, second]}
                 yield {"spec": spec, "history": [first, second, first]}
+    # one Reader reading its data several times (header x limit x mode): every pass is a run like the first
+    for spec in (SPEC, SPEC_H, dict(SPEC, header=2), SPEC_GE):
+        for limit in (None, 0, 1, 2, 3, 4, 5):
+            for mode in ("yield", "continue", "raise"):
+                for table in (DUP, THREE):
+                    one = {"op": "noclose", "mode": mode, "limit": limit, "table": table}
+                    again = dict(one, same_reader=True)
+                    yield {"spec": spec, "history": [one, again, again]}
     for late in LATE:
         yield {"spec": SPEC, "history": [late]}
         for other in ALPHABET:
@@ -272,4 +297,6 @@ def gen_inputs(tier, rnd):
                 if k == "abandon":
                     op["k"] = rnd.randint(0, 4)
                 hist.append(op)
+                if k == "noclose" and rnd.random() < 0.5:
+                    hist.append(dict(op, same_reader=True))
         yield {"spec": spec, "history": hist, "pre": rnd.random() < 0.3}
